@@ -150,7 +150,12 @@ class SMMapSetMeta:
     def _write_metadata(self: "SMMapSet") -> List[str]:
         tm = self[0].bpms.to_timing_map()
         snapper = Snapper()
-        bpm_beats = tm.beats(self[0].bpms.offset, snapper)
+        # In time order: 2 tempo points that snap onto the same beat are written
+        # at the same beat, the one listed later is the one in force.
+        bpms = type(self[0].bpms)(
+            self[0].bpms.df.sort_values("offset", kind="stable")
+        )
+        bpm_beats = tm.beats(bpms.offset, snapper)
         stop_beats = tm.beats(self[0].stops.offset, snapper)
 
         return [
@@ -172,7 +177,7 @@ class SMMapSetMeta:
             + ",\n".join(
                 [
                     f"{float(beat)}={bpm.bpm}"
-                    for beat, bpm in zip(bpm_beats, self[0].bpms)
+                    for beat, bpm in zip(bpm_beats, bpms)
                 ]
             )
             + ";",
